@@ -11,7 +11,7 @@ import (
 func init() {
 	register(&PropRule{
 		ID:    "C39",
-		Roots: []string{"./pkg/drkey/...", "./control/drkey", "./private/drkey/drkeyutil"},
+		Roots: []string{"./pkg/drkey/...", "./control/drkey", "./private/drkey/drkeyutil", "./private/storage/drkey/..."},
 		Explain: "Decides the structural clauses of DRKey derivation. (M1) The PRF is an AES-CBC-MAC with zero IV over the " +
 			"WHOLE input: DeriveKey runs cbcMac(initAESCBC(upper key), input), initAESCBC builds " +
 			"cipher.NewCBCEncrypter(aes.NewCipher(key), ZeroBlock), cbcMac calls CryptBlocks over the entire " +
@@ -62,6 +62,7 @@ func init() {
 }
 
 func runC39(c *Ctx) {
+	c39SQLBinding(c)
 	dp := "pkg/drkey."
 	// M1
 	rule := "M1-cbc-mac"
